@@ -337,31 +337,54 @@ func init() {
 			if cond == nil {
 				return []Obligation{mkOb(c, "LEX.minus-delimiters", u, "case '-'", minus, Undecided, "the '-' case has no standalone test", false)}
 			}
-			ast.Inspect(cond, func(n ast.Node) bool {
-				switch x := n.(type) {
-				case *ast.BinaryExpr:
-					if x.Op == token.EQL {
-						if v, ok := constantInt64(info.Types[x.Y]); ok {
-							accepted[rune(v)] = true
+			// the runes the test can accept: written in the condition, or in a boolean helper of
+			// the package the condition calls (comparisons, case lists, ContainsRune sets)
+			var collect func(info *types.Info, root ast.Node, depth int)
+			collect = func(info *types.Info, root ast.Node, depth int) {
+				ast.Inspect(root, func(n ast.Node) bool {
+					switch x := n.(type) {
+					case *ast.BinaryExpr:
+						if x.Op == token.EQL {
+							if v, ok := constantInt64(info.Types[x.Y]); ok {
+								accepted[rune(v)] = true
+							}
+							if v, ok := constantInt64(info.Types[x.X]); ok {
+								accepted[rune(v)] = true
+							}
 						}
-						if v, ok := constantInt64(info.Types[x.X]); ok {
-							accepted[rune(v)] = true
+					case *ast.CaseClause:
+						if depth > 0 {
+							for _, e := range x.List {
+								if v, ok := constantInt64(info.Types[e]); ok {
+									accepted[rune(v)] = true
+								}
+							}
 						}
-					}
-				case *ast.CallExpr:
-					if stdFuncCalled(info, x, "unicode", "IsSpace") {
-						space = true
-					}
-					if (stdFuncCalled(info, x, "strings", "ContainsRune") || stdFuncCalled(info, x, "strings", "IndexRune")) && len(x.Args) == 2 {
-						if s, ok := constStringVal(info, x.Args[0]); ok {
-							for _, r := range s {
-								accepted[r] = true
+					case *ast.CallExpr:
+						if stdFuncCalled(info, x, "unicode", "IsSpace") {
+							space = true
+						}
+						if (stdFuncCalled(info, x, "strings", "ContainsRune") || stdFuncCalled(info, x, "strings", "IndexRune")) && len(x.Args) == 2 {
+							if s, ok := constStringVal(info, x.Args[0]); ok {
+								for _, r := range s {
+									accepted[r] = true
+								}
+							}
+						}
+						if h := originOf(Callee(info, x)); h != nil && depth < 2 && h.Pkg() == fn.Pkg() {
+							if hd := c.declOf[h]; hd != nil && hd.Body != nil {
+								if res := h.Type().(*types.Signature).Results(); res.Len() == 1 {
+									if bt, ok := res.At(0).Type().Underlying().(*types.Basic); ok && bt.Kind() == types.Bool {
+										collect(c.pkgOf[hd].TypesInfo, hd.Body, depth+1)
+									}
+								}
 							}
 						}
 					}
-				}
-				return true
-			})
+					return true
+				})
+			}
+			collect(info, cond, 0)
 			var obs []Obligation
 			if space {
 				obs = append(obs, mkOb(c, "LEX.minus-delimiters", u, "whitespace", cond, Proved, "the test accepts every unicode.IsSpace rune", false))
